@@ -95,6 +95,46 @@ def run(ctx):
                        "replay_cmd": "echo '%s' | build/target/debug/c22" % cc.run_line(p, "fn", "main", fa, a)})
     ctx.oblige("oracle:L3:impl-run=reference-semantics", not mism3, "%d disagreeing runs" % len(mism3))
 
+    # ---------------- the arithmetic boundary family: the four integer builtins on every pair of boundary values
+    B = [cc.I64_MIN, cc.I64_MIN + 1, -2, -1, 0, 1, 2, cc.I64_MAX - 1, cc.I64_MAX]
+    ar_funs = [{'name': 'f_' + op, 'params': [('a', cc.T_INT), ('b', cc.T_INT)],
+                'ret': cc.T_INT if op.startswith('saturating') else cg.opt(cc.T_INT),
+                'body': [('SReturn', ('ECall', op, [('EVar', 'a'), ('EVar', 'b')]))]} for op in ('add', 'sub', 'saturating_add', 'saturating_sub')]
+    ar_pol = {'enums': [], 'structs': [], 'effects': [], 'facts': [], 'globals': [], 'funs': ar_funs, 'finfuns': [], 'cmds': [],
+              'actions': [], 'uses_ffi': False}
+    ar_cases = [(f['name'], a, b) for f in ar_funs for a in B for b in B]
+    resa, err = cc.run_harness(vlib, binp, [cc.run_line(ar_pol, "fn", n, 0, [('I', a), ('I', b)]) for (n, a, b) in ar_cases])
+    if resa is None:
+        ctx.oblige("harness:run:arith-family", False, err)
+        return
+    def ar_expected(n, a, b):
+        v = a + b if n.endswith('add') else a - b
+        if n.startswith('f_saturating'):
+            return "I%d" % max(cc.I64_MIN, min(cc.I64_MAX, v))
+        return "O(I%d)" % v if cc.I64_MIN <= v <= cc.I64_MAX else "N"
+    ar_wrong, ar_runs = [], []
+    for (n, a, b), l in zip(ar_cases, resa):
+        ex, top, depth_, log = cc.run_result(l) if "|" in l else (l, None, 0, [])
+        ar_runs.append((ar_pol, n, [('I', a), ('I', b)], (ex, top, log)))
+        if (ex, top) != ("normal", ar_expected(n, a, b)):
+            ar_wrong.append((n, a, b, l))
+    for (n, a, b, l) in ar_wrong[:3]:
+        ctx.violation("compiled code does not compute the language semantics: %s(%d, %d) gives the wrong value" % (n[2:], a, b),
+                      {"policy": cc.policy_text(ar_pol), "entry": "fn " + n, "args": [a, b], "expected": ar_expected(n, a, b), "impl": l[:200],
+                       "contradicts": "compile_correct (coq/props/C22.v) with Lang.eval_builtin: checked / saturating i64 arithmetic",
+                       "replay_cmd": "echo '%s' | build/target/debug/c22" % cc.run_line(ar_pol, "fn", n, 0, [('I', a), ('I', b)])})
+    ctx.oblige("oracle:L3:arith-family-values", not ar_wrong, "%d wrong results, first %s" % (len(ar_wrong), ar_wrong[:2]))
+    def ar_render(chunk):
+        items = ["(%s, %s, %s)" % (cc.cq_str(n), cc.cq_list(a, cc.val_coq), cc.summary_coq(r[0], r[1], r[2])) for (_, n, a, r) in chunk]
+        return ("Definition pol : policy := %s.\nDefinition cases : list (ident * list Value * summary) := %s.\n"
+                "Eval vm_compute in (mismatches (fun c => let '(f, args, s) := c in summary_eqb (l3_function pol true f args 0%%N) s) cases).\n"
+                % (cc.cq_policy(ar_pol), cc.cq_list(items)))
+    misma, cerr = cc.coq_mismatches(vlib, ctx, "c22_arith_l3", cc.COQ_HEADER, ar_runs, ar_render, shard=400)
+    if misma is None:
+        ctx.oblige("correspondence:L3:model-eval", False, cerr)
+        return
+    ctx.oblige("oracle:L3:arith-family-impl-run=reference-semantics", not misma, "%d disagreeing runs" % len(misma))
+
     # ---------------- the boolean-nesting family: small shapes over !, &&, ||, comparisons, `is Some`, every assignment
     fam = cg.bool_family(ctx.rng, thorough)
     assigns = cg.bool_assignments()
@@ -161,6 +201,7 @@ def run(ctx):
             "l1_programs": len(usable), "l1_accepted": accepted, "l1_rejected_by_class": err_classes, "l1_mutation_kinds": kinds,
             "l1_unusable_harness_lines": len(bad_lines),
             "l3_runs": len(runs), "l3_exit_reasons": exits, "nesting_depth": depth,
+            "arith_family": {"runs": len(ar_runs), "values": B},
             "bool_family": {"shapes": sum(len(sh) for (_, sh) in fam), "policies": len(fam), "assignments_per_shape": len(assigns),
                             "runs": len(fam_runs), "exhaustive_to_depth": 2 if thorough else 1},
             "constructs_in_unmutated_l1_programs": cons,
